@@ -1007,34 +1007,45 @@ fn scenario_timed_independent(seed: u64) {
     x.blocking_tell(Job(2, false), None).unwrap(); // the single slot is taken: X's mailbox stays full
     let long = Duration::from_secs(30);
     let started = Arc::new(AtomicU64::new(0));
-    let a = {
+    // how many threads wait out the long timeout at the same time: usually one, sometimes a burst (every timed blocking
+    // call gets a helper thread of its own; no number of stuck calls may stand in the way of an unrelated one)
+    let n_long = match rng.below(6) {
+        0 | 1 | 2 => 9 + rng.below(2),
+        3 => 2 + rng.below(2),
+        _ => 1,
+    };
+    let mut waiters = Vec::new();
+    for _ in 0..n_long {
         let x = x.clone();
         let started = started.clone();
         let use_ask = rng.below(2) == 0;
-        std::thread::spawn(move || {
-            started.store(1, Ordering::SeqCst);
+        waiters.push(std::thread::spawn(move || {
+            started.fetch_add(1, Ordering::SeqCst);
             let t0 = Instant::now();
             let r = if use_ask { x.blocking_ask(Job(3, false), Some(long)).map(|_| ()) } else { x.blocking_tell(Job(3, false), Some(long)) };
             (r.map_err(|e| err_kind(&e)), t0.elapsed())
-        })
-    };
-    while started.load(Ordering::SeqCst) == 0 {
+        }));
+    }
+    while started.load(Ordering::SeqCst) < n_long {
         std::thread::sleep(Duration::from_millis(1));
     }
     std::thread::sleep(Duration::from_millis(50 + rng.below(200)));
     let bound = long / 3;
     let t0 = Instant::now();
-    let r1 = y.blocking_ask(Job(10, false), Some(Duration::from_millis(300))).map(|rc| rc.id).map_err(|e| err_kind(&e));
+    // (with a burst of waiters still setting up their helper threads, Miri's clock - which charges every thread's work -
+    // runs fast: the healthy call gets a timeout that no amount of such inflation reaches, still a tenth of `long`)
+    let healthy_timeout = Duration::from_millis(if n_long >= 4 { 3000 } else { 300 });
+    let r1 = y.blocking_ask(Job(10, false), Some(healthy_timeout)).map(|rc| rc.id).map_err(|e| err_kind(&e));
     let e1 = t0.elapsed();
     let t0 = Instant::now();
     let r2 = x.blocking_tell(Job(11, false), Some(Duration::from_millis(200))).map_err(|e| err_kind(&e));
     let e2 = t0.elapsed();
-    ev(format!("timed-independent healthy={r1:?} in {}ms stuck={r2:?} in {}ms", e1.as_millis(), e2.as_millis()));
+    ev(format!("timed-independent long_waiters={n_long} healthy={r1:?} in {}ms stuck={r2:?} in {}ms", e1.as_millis(), e2.as_millis()));
     if r1 != Ok(10) {
-        violation("C17", "healthy-actor-call-failed", format!("blocking_ask(Some(300ms)) to a live, idle actor returned {r1:?} while another thread's timed call was waiting on a different actor"));
+        violation("C17", "healthy-actor-call-failed", format!("blocking_ask(Some({healthy_timeout:?})) to a live, idle actor returned {r1:?} while {n_long} other timed call(s) were waiting on a different actor"));
     }
     if e1 > bound {
-        violation("C17", "timed-call-delayed-by-another", format!("blocking_ask(Some(300ms)) to a live, idle actor took {e1:?} while another thread's call was waiting out its {long:?} timeout on a different actor"));
+        violation("C17", "timed-call-delayed-by-another", format!("blocking_ask(Some({healthy_timeout:?})) to a live, idle actor took {e1:?} while another thread's call was waiting out its {long:?} timeout on a different actor"));
     }
     if r2 != Err("Timeout") {
         violation("C17", "timeout-missing", format!("blocking_tell(Some(200ms)) into a mailbox that stays full returned {r2:?}"));
@@ -1042,9 +1053,11 @@ fn scenario_timed_independent(seed: u64) {
     if e2 > bound {
         violation("C17", "timed-call-delayed-by-another", format!("blocking_tell(Some(200ms)) took {e2:?} to time out while another thread's call was waiting out its {long:?} timeout"));
     }
-    let (ra, ea) = a.join().unwrap();
-    if ra != Err("Timeout") || ea < long {
-        violation("C17", "long-call-wrong", format!("the long call returned {ra:?} after {ea:?}"));
+    for a in waiters {
+        let (ra, ea) = a.join().unwrap();
+        if ra != Err("Timeout") || ea < long {
+            violation("C17", "long-call-wrong", format!("the long call returned {ra:?} after {ea:?}"));
+        }
     }
     gate.add_permits(8);
     rt.block_on(x.stop()).unwrap();
